@@ -495,6 +495,8 @@ def oracle(chk, n, hints=()):
     core_config_oracle(chk)
     if not chk.failures:
         parser_oracle(chk)
+    if not chk.failures:
+        shared_declaration_oracle(chk)
 
 
 def parser_oracle(chk):
@@ -525,6 +527,54 @@ def parser_oracle(chk):
                 chk.fail('config:parser', f"environment text {text!r} for four integer values with different parsers, read in the order {list(order)}: "
                          f"{bad[0]} gives {got[bad[0]]!r}, its parser gives {expect[bad[0]]!r}", {'text': text, 'order': list(order)})
                 return
+
+
+def shared_declaration_oracle(chk):
+    """user-defined config classes that share a declaration: one ConfigValue object used in the bodies of two classes, and one plain class body decorated
+    under two prefixes - every class resolves ITS values: its own explicit value, else its own PREFIX_NAME variable, else the default"""
+    from pyroll.core.config import config, ConfigValue
+    shared = ConfigValue(5, parser=lambda s: int(s) + 1000)
+
+    def body():
+        class Body:
+            N = shared
+            M = 7
+        return Body
+    A = config("VSA")(body())
+    B = config("VSB")(body())
+
+    class Plain:
+        M = 7
+        L = [1]
+    P1 = config("VSP")(Plain)
+    P2 = config("VSQ")(Plain)
+    env = {'VSA_N': '1', 'VSB_N': '2', 'VSA_M': '11', 'VSB_M': '12', 'VSP_M': '21', 'VSQ_M': '22'}
+    os.environ.update(env)
+    try:
+        got = {'A.N': A.N, 'B.N': B.N, 'A.M': A.M, 'B.M': B.M, 'P1.M': P1.M, 'P2.M': P2.M}
+        want = {'A.N': 1001, 'B.N': 1002, 'A.M': 11, 'B.M': 12, 'P1.M': 21, 'P2.M': 22}
+        chk.cov['evaluations'] += 1
+        if got != want:
+            return chk.fail('config:shared-declaration', f"two config classes (prefixes VSA / VSB, VSP / VSQ) built from one declaration, environment {env}: "
+                            f"reads give {got}, each class's own variables give {want}", {'environment': env})
+        A.N = 0
+        B.M = False
+        got = {'A.N': A.N, 'B.N': B.N, 'A.M': A.M, 'B.M': B.M}
+        want = {'A.N': 0, 'B.N': 1002, 'A.M': 11, 'B.M': False}
+        chk.cov['evaluations'] += 1
+        if got != want:
+            return chk.fail('config:shared-declaration', f"explicit values A.N = 0, B.M = False on two classes sharing a declaration: reads give {got}, expected {want}",
+                            {'environment': env, 'explicit': {'A.N': 0, 'B.M': False}})
+        del A.N
+        for k in env:
+            os.environ.pop(k)
+        got = {'A.N': A.N, 'B.N': B.N, 'A.M': A.M, 'B.M': B.M, 'P1.M': P1.M, 'P2.M': P2.M}
+        want = {'A.N': 5, 'B.N': 5, 'A.M': 7, 'B.M': False, 'P1.M': 7, 'P2.M': 7}
+        if got != want:
+            return chk.fail('config:shared-declaration', f"after deleting A.N and clearing the environment: reads give {got}, expected {want}", {'environment': {}})
+    finally:
+        for k in env:
+            os.environ.pop(k, None)
 
 
 def core_config_oracle(chk):
